@@ -180,6 +180,9 @@ func (f *Frame) recordDebugRef(cur *blockCur, x *ssa.DebugRef) {
 	if obj == nil {
 		return
 	}
+	if v, isVar := obj.(*types.Var); isVar && v.IsField() {
+		return // `x.f`: a reference to a struct field, not a variable named f
+	}
 	name := obj.Name()
 	idx := len(f.locals[name])
 	_ = idx
